@@ -24,6 +24,11 @@ func TestMain(m *testing.M) { kit.Main(m, "C09") }
 //	iws      the receiver announces SETTINGS_INITIAL_WINDOW_SIZE = N
 //	maxframe the receiver announces SETTINGS_MAX_FRAME_SIZE = N (never lowered)
 //	ack      the sender processes (and acknowledges) the SETTINGS it has received
+//	rst      the receiver resets stream S (RST_STREAM CANCEL). The sender may still have
+//	         DATA for that stream on its way: up to two later sends on S are such late
+//	         frames. They count against the connection window like any DATA, so their
+//	         connection-level credit must come back; delivery and stream-level credit
+//	         are not demanded for them.
 //
 // Ack on iws/maxframe: the sender processes the new value at once; otherwise it
 // keeps acting under the old one until an ack op, as an endpoint may while the
@@ -82,11 +87,12 @@ type ref struct {
 	win       []int
 	queue     [][]int
 	sent      []bool // a DATA frame has been sent on the stream
+	reset     []bool // the receiver has reset the stream
 	set       map[string]bool
 }
 
 func newRef(streams int) *ref {
-	r := &ref{conn: 65535, iws: 65535, win: make([]int, streams), queue: make([][]int, streams), sent: make([]bool, streams), set: map[string]bool{}}
+	r := &ref{conn: 65535, iws: 65535, win: make([]int, streams), queue: make([][]int, streams), sent: make([]bool, streams), reset: make([]bool, streams), set: map[string]bool{}}
 	for i := range r.win {
 		r.win[i] = r.iws
 	}
@@ -124,7 +130,17 @@ func (r *ref) blocked() (stream int, byConn bool) {
 
 func (r *ref) apply(op Op) {
 	switch op.K {
+	case "rst":
+		r.reset[op.S] = true
+		r.queue[op.S] = nil // whatever was held for it need not be delivered any more
+		r.set["stream-reset-by-receiver"] = true
 	case "send":
+		if r.reset[op.S] {
+			if flowLen(op) > 0 {
+				r.set["data-after-reset"] = true
+			}
+			return
+		}
 		if op.Pad >= 0 {
 			r.set["padded-data"] = true
 			if op.N == 0 {
@@ -261,6 +277,7 @@ func genCase(t *rapid.T) Case {
 	pending := false
 	model := newRef(c.Streams)
 	closed := make([]bool, c.Streams)
+	late := make([]int, c.Streams) // DATA frames the sender may still send on a stream the receiver has reset
 	if c.Lazy && rapid.Bool().Draw(t, "early_grant") {
 		// credit for a stream the server has not answered yet, and room on the connection
 		for _, op := range []Op{
@@ -273,15 +290,47 @@ func genCase(t *rapid.T) Case {
 	}
 	for i := 0; i < n; i++ {
 		held, byConn := model.blocked()
-		kinds := []string{"send", "send", "send", "send", "send", "send", "wu", "wu", "iws", "iws", "maxframe", "ack"}
+		kinds := []string{"send", "send", "send", "send", "send", "send", "wu", "wu", "iws", "iws", "maxframe", "ack", "rst"}
 		if held >= 0 {
-			kinds = []string{"send", "send", "send", "wu", "wu", "wu", "wu", "wu", "wu", "iws", "iws", "ack"}
+			kinds = []string{"send", "send", "send", "wu", "wu", "wu", "wu", "wu", "wu", "iws", "iws", "ack", "rst"}
 		}
 		k := rapid.SampledFrom(kinds).Draw(t, "kind")
 		op := Op{K: k, Pad: -1}
 		switch k {
+		case "rst":
+			op.S = rapid.IntRange(0, c.Streams-1).Draw(t, "rst_stream")
+			if model.reset[op.S] {
+				op = Op{K: "wu", Pad: -1, S: -1, N: 1}
+				break
+			}
+			late[op.S] = 2
+			// the late frames usually follow at once
+			if !closed[op.S] && rapid.IntRange(0, 3).Draw(t, "late_now") > 0 {
+				model.apply(op)
+				c.Ops = append(c.Ops, op)
+				op = Op{K: "send", Pad: -1, S: op.S}
+				limit := sIWS
+				if limit > 65535 {
+					limit = 65535
+				}
+				if sMax < limit {
+					limit = sMax
+				}
+				op.N = rapid.SampledFrom([]int{1, 100, 1000, 16384}).Draw(t, "late_size")
+				if op.N > limit {
+					op.N = limit
+				}
+				late[op.S]--
+			}
 		case "send":
 			op.S = rapid.IntRange(0, c.Streams-1).Draw(t, "stream")
+			if model.reset[op.S] && !closed[op.S] {
+				if late[op.S] > 0 {
+					late[op.S]--
+				} else {
+					closed[op.S] = true // the sender has seen the reset by now
+				}
+			}
 			if closed[op.S] {
 				// the sender has ended that stream: use another one, or do something else
 				op.S = -1
@@ -349,6 +398,9 @@ func genCase(t *rapid.T) Case {
 			}
 		case "wu":
 			op.S = rapid.IntRange(-1, c.Streams-1).Draw(t, "target")
+			if op.S >= 0 && model.reset[op.S] {
+				op.S = -1 // no credit for a stream the receiver has reset
+			}
 			op.N = rapid.SampledFrom([]int{1, 1, 2, 10, 100, 1000, 16383, 16384, 65535, 1 << 20}).Draw(t, "inc")
 			if held >= 0 && rapid.IntRange(0, 3).Draw(t, "aimed") > 0 {
 				// aim at what holds the data: just enough, one short, one octet
@@ -434,6 +486,8 @@ type session struct {
 	accepted [][]int          // per stream: sizes of the DATA frames the relay has accepted
 	total    []int            // per stream: data octets accepted
 	wantWU   map[uint32]int64 // credit the sender is owed
+	optWU    map[uint32]int64 // part of wantWU[stream] that may be withheld (DATA sent on a stream the receiver had reset)
+	reset    []bool           // the receiver has reset the stream
 	creditOK bool             // false once a credit failure was reported (report once)
 	gaveUp   bool             // a stranding failure was reported: the case is decided
 }
@@ -515,6 +569,9 @@ func headRemainder(frames []int, delivered int) int {
 func (x *session) stranded() []string {
 	var out []string
 	for i, id := range x.ids {
+		if x.reset[i] {
+			continue
+		}
 		var delivered int
 		x.R.With(func(r *h2kit.Rec) { delivered = r.DataBytes[id] })
 		h := headRemainder(x.accepted[i], delivered)
@@ -532,6 +589,7 @@ func (x *session) stranded() []string {
 // undelivered reports whether the relay has accepted data it has not delivered yet.
 func (x *session) undelivered() bool {
 	for i, id := range x.ids {
+		// (streams the receiver has reset included: the relay may still hold their data)
 		var got int
 		x.R.With(func(r *h2kit.Rec) { got = r.DataBytes[id] })
 		if got < x.total[i] {
@@ -584,7 +642,7 @@ func (x *session) check(step int, what string) {
 		ids := []uint32{0}
 		ids = append(ids, x.ids...)
 		for _, id := range ids {
-			if got[id] == x.wantWU[id] {
+			if got[id] == x.wantWU[id] || (id != 0 && got[id] >= x.wantWU[id]-x.optWU[id] && got[id] <= x.wantWU[id]) {
 				continue
 			}
 			x.creditOK = false
@@ -610,7 +668,9 @@ func (x *session) check(step int, what string) {
 			if padded {
 				shape = "padded-data"
 			}
-			if step < len(x.c.Ops) && x.c.Ops[step].K == "send" && x.c.Ops[step].End && flowLen(x.c.Ops[step]) > 0 {
+			if step < len(x.c.Ops) && x.c.Ops[step].K == "send" && x.reset[x.c.Ops[step].S] {
+				shape = "data-after-reset"
+			} else if step < len(x.c.Ops) && x.c.Ops[step].K == "send" && x.c.Ops[step].End && flowLen(x.c.Ops[step]) > 0 {
 				shape = "data-with-end-stream" // the frame just sent is the one short of credit
 			}
 			_ = padOnly
@@ -642,7 +702,7 @@ func runOnce(c Case, bound time.Duration) (kit.Verdict, bool) {
 		return kit.Failf("C09/session/setup/relay-did-not-connect", "%v", err), true
 	}
 	defer s.Teardown(bound)
-	x := &session{c: c, s: s, bound: bound, wantWU: map[uint32]int64{}, creditOK: true}
+	x := &session{c: c, s: s, bound: bound, wantWU: map[uint32]int64{}, optWU: map[uint32]int64{}, reset: make([]bool, c.Streams), creditOK: true}
 	x.S, x.R = s.Client, s.Server
 	if c.Reverse {
 		x.S, x.R = s.Server, s.Client
@@ -697,13 +757,22 @@ func runOnce(c Case, bound time.Duration) (kit.Verdict, bool) {
 					x.fail(false, "C09/session/sender/connection-lost", "step %d: writing DATA: %v%s", i, err, x.diag())
 					return x.v, x.slow
 				}
-				x.accepted[op.S] = append(x.accepted[op.S], op.N)
 				x.total[op.S] += op.N
+				if !x.reset[op.S] {
+					x.accepted[op.S] = append(x.accepted[op.S], op.N)
+				}
 				if n > 0 {
 					x.wantWU[id] += int64(n)
 					x.wantWU[0] += int64(n)
+					if x.reset[op.S] {
+						x.optWU[id] += int64(n)
+					}
 				}
 			}
+		case "rst":
+			x.R.WriteRST(x.ids[op.S], 8)
+			x.reset[op.S] = true
+			x.accepted[op.S] = nil // nothing on this stream has to be delivered any more
 		case "wu":
 			id := uint32(0)
 			if op.S >= 0 {
@@ -787,7 +856,7 @@ var propHistories = &kit.Prop[Case]{
 	ID: "C09", Name: "histories",
 	Rule: "flow-control histories on one relay session, either direction: DATA sends (sizes up to what the sender may assume, padded or not) on 1..4 streams interleaved with the receiver's SETTINGS_INITIAL_WINDOW_SIZE / MAX_FRAME_SIZE changes (processed by the sender at once or later) and stream/connection WINDOW_UPDATEs (1 octet .. 1 MiB); after every step the relay is flushed with barrier frames and the receiver's ledger (never beyond granted credit, never above its frame size), the sender's credit (exactly the flow-controlled length) and frame-granular no-stranding are checked; non-trivial = a window reaches 0, a SETTINGS change with data queued, a padded frame, or a 1-octet increment",
 	Gen:  genCase, Run: run, NonTrivial: nontrivial, Classes: classes,
-	Gates: map[string]float64{"repeated-settings-identifier": 0.1, "grant-before-first-frame": 0.1, "end-stream-with-payload": 0.15, "window-reaches-zero": 0.15, "padded-data": 0.15, "one-byte-increment": 0.15, "settings-change-with-data-queued": 0.10, "data-queued": 0.3},
+	Gates: map[string]float64{"data-after-reset": 0.1, "repeated-settings-identifier": 0.1, "grant-before-first-frame": 0.1, "end-stream-with-payload": 0.15, "window-reaches-zero": 0.15, "padded-data": 0.15, "one-byte-increment": 0.15, "settings-change-with-data-queued": 0.10, "data-queued": 0.3},
 }
 
 func TestHistories(t *testing.T) {
